@@ -1231,6 +1231,9 @@ func (s *Summarizer) NilResultForm(f *ssa.Function, idx int, env termEnv) *Form 
 		if c, ok := isCallTo(v, "errors.New"); ok && c != nil {
 			continue
 		}
+		if provenError(unIface(v)) || certainlyNonNil(v, ret.Block()) {
+			continue // a package-level error value, or returned where it was tested to be non-nil
+		}
 		// returned under "v != nil"
 		nonNil := false
 		for _, g := range GuardsOf(ret.Block()) {
